@@ -521,5 +521,18 @@ theorem sound_retry (rs : List (Bytes × JVal)) (state : Bytes) (o : RetryObs) (
   rintro ⟨h1, h2, h3⟩
   simp [retryMonitor, h1, h2, h3] at h
 
+/-! ## `ToolAnnotations` -/
+
+/-- annotations come back as themselves, and the default encoding carries both boolean hints -/
+def P_annRoundtrip (compat : Bool) (a : ToolAnn) (o : AnnObs) : Prop :=
+  o.back = some a ∧ (compat = false → hintsPresent o.written = true)
+
+theorem sound_ann (compat : Bool) (a : ToolAnn) (o : AnnObs) (c : Clause) (h : annMonitor compat a o = some c) :
+    ¬ P_annRoundtrip compat a o := by
+  rintro ⟨h1, h2⟩
+  cases compat
+  · simp [annMonitor, h1, h2 rfl] at h
+  · simp [annMonitor, h1] at h
+
 end Mon
 end Wire
